@@ -51,12 +51,21 @@ class control_proportional_integral(Control[float]):
         ) ** self.exponent_proportional
         step_ratio_unclipped = self.safety * gain_integral * gain_proportional
 
+        # If the error estimate vanishes, error_power is inf. Remembering it would turn
+        # the next ratio error_power / error_norm_inv_prev into inf / inf = nan (or into
+        # zero, i.e., the harshest possible shrink after a perfect step).
+        # A vanishing error means "grow as much as allowed" and is not remembered.
+        is_inf = np.isinf(error_power)
+        step_ratio_unclipped = np.where(is_inf, self.factor_max, step_ratio_unclipped)
+
         scale_factor_clipped_min = np.minimum(step_ratio_unclipped, self.factor_max)
         scale_factor = np.maximum(self.factor_min, scale_factor_clipped_min)
 
         # >= 1.0 because error_power is 1/scaled_error_norm
         error_norm_inv_prev = np.where(
-            error_power >= 1.0, error_power, error_norm_inv_prev
+            np.logical_and(error_power >= 1.0, np.logical_not(is_inf)),
+            error_power,
+            error_norm_inv_prev,
         )
 
         dt_proposed = scale_factor * dt
